@@ -335,6 +335,9 @@ def auth (st : St) : List String → St × String
   | ["sha1", h] => match unhex h with
       | some b => (st, hex (Mimic.Sha1.sha1 b))
       | none => (st, "bad-op")
+  | ["verify", stored, scr, nonce] => match optChars stored, unhex scr, unhex nonce with
+      | some stc, some scr, some nonce => (st, if Mimic.Auth.verifyScramble Mimic.Sha1.sha1 stc scr nonce then "1" else "0")
+      | _, _, _ => (st, "bad-op")
   | ["go", server, user, resp, cp, hsd, hsp, draws, replies] =>
       match unhexStr user, unhex resp, optStr cp, (if hsd = "none" then some none else (unhex hsd).map some),
             optAllL ((draws.splitOn ",").map String.toNat?),
@@ -577,6 +580,7 @@ def parseItem (s : String) : Option Item :=
     match scope, parseLit lit with
     | some sc, some a => some (.var sc name a)
     | _, _ => none
+  | ["R", name, ref] => some (.varRef name ref)
   | ["N", cs, coll] => some (.names (starOpt cs) (starOpt coll))
   | ["C", cs] => some (.charset (starOpt cs))
   | ["T", chars] =>
@@ -620,7 +624,7 @@ def varOps (st : St) : List String → St × String
       | none => (st, "bad-op")
   | "set" :: items => match optAllL (items.map parseItem) with
       | some its =>
-        let r := setStmt varSchema varCs varDc st.vars its
+        let r := setStmtR varSchema varCs varDc st.vars its
         ({ st with vars := r.1 }, match r.2 with | none => "ok" | some e => showErr e)
       | none => (st, "bad-op")
   | ["get", name] => (st, match get varSchema st.vars name with | .ok v => showV v | .error e => showErr e)
